@@ -509,7 +509,9 @@ func c03Scenario(c *Ctx, idx int, r *Rng) {
 	}
 }
 
-// c03Missing: an object absent locally and on the server makes the push fail before any ref is updated
+// c03Missing: an object absent (or present with the wrong bytes) locally and absent on the server makes
+// the push fail before any ref is updated — over an http LFS server and over a file:// remote served
+// by the standalone transfer agent
 func c03Missing(c *Ctx, idx int, r *Rng) {
 	base := filepath.Join(c.Work, fmt.Sprintf("c03m-%d", idx))
 	defer os.RemoveAll(base)
@@ -522,30 +524,80 @@ func c03Missing(c *Ctx, idx int, r *Rng) {
 	if err != nil {
 		return
 	}
-	w.git("remote", "add", "origin", remote)
+	kind := Pick(r, []string{"http", "http", "file"})
+	if kind == "file" {
+		w.git("remote", "add", "origin", "file://"+remote)
+		w.git("config", "--unset", "lfs.url")
+	} else {
+		w.git("remote", "add", "origin", remote)
+	}
 	w.write(".gitattributes", []byte("*.bin filter=lfs -text\n"))
 	var oids []string
+	conts := map[string][]byte{}
 	for i := 0; i < 3; i++ {
-		b := r.Bytes(100 + i)
+		b := r.Bytes(Pick(r, []int{100, 3000, 30000}) + i)
 		w.write(fmt.Sprintf("f%d.bin", i), b)
 		oids = append(oids, sha(b))
+		conts[sha(b)] = b
 	}
 	w.git("add", "-A")
 	w.git("commit", "-qm", "objs")
+	// a first, healthy push of an earlier commit so that refs exist on the remote in half of the cases
 	victim := oids[r.Intn(3)]
-	allow := r.Chance(30)
+	allow := r.Chance(25)
 	if allow {
 		w.git("config", "lfs.allowincompletepush", "true")
 	}
-	os.Remove(w.objectPath(victim))
+	damage := Pick(r, []string{"delete", "delete", "truncate", "extend", "bitflip"})
+	p := w.objectPath(victim)
+	switch damage {
+	case "delete":
+		os.Remove(p)
+	case "truncate":
+		os.WriteFile(p, conts[victim][:len(conts[victim])/3], 0o644)
+	case "extend":
+		os.WriteFile(p, append(append([]byte(nil), conts[victim]...), []byte("tail")...), 0o644)
+	case "bitflip":
+		nb := append([]byte(nil), conts[victim]...)
+		nb[len(nb)/2] ^= 1
+		os.WriteFile(p, nb, 0o644)
+	}
 	before := remoteRefs(remote, w.env)
 	out, code := w.git("push", "origin", "master")
 	after := remoteRefs(remote, w.env)
-	enc := fmt.Sprintf("C03 missing seed=%d idx=%d allowincomplete=%v", c.Seed, idx, allow)
+	enc := fmt.Sprintf("C03 missing seed=%d idx=%d remote=%s damage=%s allowincomplete=%v", c.Seed, idx, kind, damage, allow)
 	c.R.Eval(enc, true)
-	c.R.Count("missing-object-push")
-	if !allow && (code == 0 || before != after) {
+	c.R.Count("damaged-object-push." + kind + "." + damage)
+	stored := func(oid string) ([]byte, bool) {
+		if kind == "file" {
+			b, err := os.ReadFile(filepath.Join(remote, "lfs", "objects", oid[0:2], oid[2:4], oid))
+			return b, err == nil
+		}
+		srv.mu.Lock()
+		defer srv.mu.Unlock()
+		b, ok := srv.objs[oid]
+		return b, ok
+	}
+	if code == 0 || before != after {
+		// the refs moved: every referenced object must be on the remote with the right content
+		for _, o := range oids {
+			b, ok := stored(o)
+			if allow && o == victim && damage != "bitflip" {
+				continue // incomplete pushes were explicitly allowed (missing or wrong-sized local object)
+			}
+			if !ok {
+				c.R.Add(Finding{Kind: "oracle", What: "a push updated refs although a referenced object is neither intact locally nor on the remote (object absent on the remote)", Case: enc, Impl: clip(out, 400)})
+			} else if sha(b) != o {
+				c.R.Add(Finding{Kind: "oracle", What: "a push stored an object on the remote under an id its content does not hash to", Case: enc, Impl: fmt.Sprintf("%s holds %d bytes hashing to %s | %s", o[:12], len(b), sha(b)[:12], clip(out, 300))})
+			}
+		}
+	}
+	if !allow && damage == "delete" && (code == 0 || before != after) {
 		c.R.Add(Finding{Kind: "oracle", What: "a push with an object absent locally and on the server did not fail before updating refs (lfs.allowincompletepush unset)", Case: enc, Impl: clip(out, 400)})
+	}
+	// whatever happened, nothing wrong may sit on the remote under the victim's name
+	if b, ok := stored(victim); ok && sha(b) != victim {
+		c.R.Add(Finding{Kind: "oracle", What: "the remote's LFS store holds an object whose content does not hash to its name", Case: enc, Impl: victim[:12]})
 	}
 }
 
